@@ -250,9 +250,15 @@ def handle (entry : String) (j : Json) : Except String Json := do
     let st ← strategyOf AccStrategy.ofName (← omStr j "strategy")
     let zero ← omRat j "zero"
     let xs ← getList getRat (← field j "xs")
+    -- `z` with a memory value: the running sums start at `zero` (theorems accumulate_z_memory,
+    -- rat_calls_memory); the other strategies have no such parameter
+    let base := if xs.length > longLen then R.accSpecRec xs else R.accSpec xs
+    let spec := match st with
+      | some AccStrategy.z => base.map (zero.getD 0 + ·)
+      | _ => base
     pure <| Json.mkObj [
       ("model", rats (R.accumulateCall st zero xs)),
-      ("spec", rats (if xs.length > longLen then R.accSpecRec xs else R.accSpec xs))]
+      ("spec", rats spec)]
   | "amdf_call" =>
     let lag ← getNat (← field j "lag")
     let size ← getNat (← field j "size")
@@ -277,6 +283,14 @@ def handle (entry : String) (j : Json) : Except String Json := do
       ("model", arr floatToJson (F.envelopePoleCall st cutoff xs)),
       ("spec", arr floatToJson (F.envelopeSpec st cutoff xs)),
       ("eff_cutoff", floatToJson c), ("b", arr floatToJson ba.1), ("a", arr floatToJson ba.2)]
+  | "envelope_var" =>
+    -- a cutoff per sample (Float twin): the per-sample pole is the expression of C13's lowpass.pole
+    let st ← strategyOf EnvStrategy.ofName (← omStr j "strategy")
+    let cs ← getList getFloat (← field j "cutoffs")
+    let xs ← getList getFloat (← field j "xs")
+    pure <| Json.mkObj [
+      ("model", arr floatToJson (F.envelopeVarCall st cs xs)),
+      ("spec", arr floatToJson (F.envelopeVarSpec st cs xs))]
   | "coeffs" =>
     -- the coefficient lists the filter-built strategies are modelled with (structural tie)
     let size ← getNat (← field j "size")
